@@ -46,6 +46,10 @@ RULE_PRO = ("stream PRO (own address, history of up to 60 operations): own addre
 RULE_EXC = ("stream EXC (one exchange call): all 16 requested kinds x both capture modes x single/multi reply; request to own / broadcast / other address with 0..3 registered handlers; queues of 0..12 "
             "incoming packets (matching encodings addressed to own / broadcast / another device, another kind, error packets, truncated encodings, garbage) optionally containing or ending in "
             "'nothing received' or a link error; send answers incl. errors; the trace of send / wait / get events is recorded by the mock link and the wait closure")
+E2E = dict(stream="E2E", module="RP.Glue.StreamE2E")
+RULE_E2E = ("stream E2E (two nodes): for each link, node A (own address broadcast / 1 / random) sends 1..=8 events of random kinds (field values boundary-biased, data events up to 300 bytes, so single- and "
+            "multi-frame packets) addressed to B, to broadcast, to A itself or elsewhere, through Protocol::send_packet over the real sender; the recorded wire image is replayed with 5 gap patterns to "
+            "B's real receiver under Protocol::tick until the link is dry; B has 0..=4 logging handlers (own-address / capture-all), own address possibly equal to A's or broadcast")
 RULE_DEC = ("stream DEC (decoder kind, packet): every decoder x every payload length 0..=70 with the kind's code in place and tag-like bytes; "
             "valid encodings from an independent layout table, each perturbed (error flag, every code 0..=0x12/0xffff, length +-1, truncation at a random "
             "point, bit flip, foreign decoder, every variant tag and flag byte 0..=255, 32-bit message tags incl. >= 256, non-zero padding, declared data "
@@ -64,6 +68,16 @@ NOTE_COMMON = ("Proved of the hand-written Gallina model (no axioms; Print Assum
 
 
 PROPS = {
+    "C01": dict(
+        vfiles=["Props/C01"],
+        technique="Coq proof by composition: sender routing (C16) + senders' wire image (C14/C13_sender_wire) + link transparency under every schedule (C13) + dispatch (C15) + event round trip (C03), for all three links; correspondence with the full real stack on both ends",
+        level_text="Theorems C01_usart / C01_serial / C01_can: for every finite sequence of well-formed events (packets up to 4096 frames), all pairs of node addresses, every handler table of the receiver and every "
+                   "polling schedule of the link, the receiver's handler log is exactly (transmitted event x selected handlers) in order, once each; every tick returns Ok; every delivered packet decodes to the event sent.",
+        level_note=NOTE_COMMON + " An event addressed to the sender's own address is looped back locally and not transmitted (C16); the sender node has no local handlers in the theorem.",
+        streams=[dict(E2E, view="view_C01", ok="ok_C01")],
+        rule=RULE_E2E,
+        assumptions=["serial port: 'no data yet' only between link frames, as the property states", "data events larger than 28666 payload bytes (more than 4096 frames) are outside the quantifier"],
+    ),
     "C02": dict(
         vfiles=["Props/C02"],
         technique="Coq proof by induction on the frame index with the invariant 'the builder holds the first k frames of the fragmentation' (no bound below the 12-bit id limit), composed with the CAN/USART round-trip theorems for fragment-shaped frames; correspondence on boundary-size packets through all three paths",
